@@ -29,7 +29,9 @@ CTypes   == {"absent", "plain", "html", "mixed", "related", "alternative", "othe
 Bounds   == {"ok", "absent", "empty", "mismatch"}
 (* b64cutN: well-formed base64 that ends N characters short of a complete group of four (a message cut in transit) *)
 B64Cuts  == {"b64cut1", "b64cut2", "b64cut3"}
-CTEs     == {"absent", "7bit", "8bit", "qp", "b64", "unknown", "b64garbage"} \cup B64Cuts
+(* cteparen / ctecomment: a known token followed by parentheses - unbalanced in the wrong order, or an RFC 5322 comment *)
+OddCTEs  == {"cteparen", "ctecomment"}
+CTEs     == {"absent", "7bit", "8bit", "qp", "b64", "unknown", "b64garbage"} \cup B64Cuts \cup OddCTEs
 Addrs    == {"ok", "bad", "absent", "emptygroup"}
 Dates    == {"ok", "bad", "absent"}
 PTypes   == {"plain", "html", "related", "alternative", "mixed", "noctype", "other", "twoctypes"}
@@ -110,7 +112,7 @@ Plain == pc = "plain" /\
   LET c == inp.top.cte IN
   IF c = "unknown" THEN Finish("err")
   ELSE IF c = "b64garbage" THEN Finish("err")
-  ELSE IF c \in B64Cuts THEN Finish("any")          \* an error or a message with what could be decoded: totality only
+  ELSE IF c \in B64Cuts \cup OddCTEs THEN Finish("any")          \* an error or a message with what could be decoded: totality only
   ELSE pc' = "done" /\ out' = "msg" /\ nparts' = 1 /\ UNCHANGED <<inp, i, natts, nembeds>> /\ steps' = steps + 1
 
 (* multipartReader.NextPart: the loop consumes one part per iteration *)
@@ -133,7 +135,7 @@ Disp == pc = "disp" /\
   ELSE IF DEV_SliceFilename /\ p.fname \in {"empty", "unquoted1"} THEN Finish("panic")
   ELSE IF p.disp \in {"other", "empty"} THEN Finish("err")
   ELSE IF p.cte = "b64garbage" /\ ~Multi(p.ptype) THEN Finish("err")
-  ELSE IF p.cte \in B64Cuts /\ ~Multi(p.ptype) THEN Finish("any")
+  ELSE IF p.cte \in B64Cuts \cup OddCTEs /\ ~Multi(p.ptype) THEN Finish("any")
   ELSE /\ pc' = "nextpart" /\ i' = i + 1 /\ steps' = steps + 1
        /\ natts' = natts + (IF p.disp = "attachment" THEN 1 ELSE 0)
        /\ nembeds' = nembeds + (IF p.disp = "inline" THEN 1 ELSE 0)
@@ -147,7 +149,7 @@ Content == pc = "content" /\
   ELSE IF p.ptype \in {"related", "alternative"}      \* nested container: its parts were added by the recursive call
        THEN pc' = "nextpart" /\ i' = i + 1 /\ steps' = steps + 1 /\ nparts' = nparts + p.sub /\ UNCHANGED <<inp, out, natts, nembeds>>
   ELSE IF p.cte \in {"unknown", "b64garbage"} /\ ~Multi(p.ptype) THEN Finish("err")
-  ELSE IF p.cte \in B64Cuts /\ ~Multi(p.ptype) THEN Finish("any")
+  ELSE IF p.cte \in B64Cuts \cup OddCTEs /\ ~Multi(p.ptype) THEN Finish("any")
   ELSE /\ pc' = "nextpart" /\ i' = i + 1 /\ steps' = steps + 1
        /\ nparts' = nparts + 1
        /\ UNCHANGED <<inp, out, natts, nembeds>>
